@@ -454,7 +454,7 @@ def jobs(tier):
     for scheme in ("Rectangle", "Trapezoid", "Fourier1", "Alternative", "Fourier2"):
         for shape in shapes3 + shapes2:
             js.append(Job(f"weights/{scheme}/{shape}", job_weights, scheme, shape))
-    for natom in ((1, 2) if tier == "quick" else (1, 2, 3)):
+    for natom in (1, 2):
         js.append(Job(f"from_molecule/{natom}", job_from_molecule, natom))
         if natom == 2:
             js.append(Job(f"from_molecule/{natom}/equal-charges", job_from_molecule, natom, True))
@@ -471,7 +471,7 @@ def main():
     return harness.finish(
         PROP, res, t0, "DESIGN.md#c13",
         bounds=dict(index_maps="symbolic unbounded integer shapes, 2-D and 3-D", layout="concrete shapes up to 4x4x4 with symbolic origin/axes; tensor grids with symbolic nodes",
-                    weights="5 schemes x 2-D/3-D x listed shapes, diagonal symbolic axes", from_molecule="<= 2 (quick) / 3 atoms, rotate=False, extent within one spacing",
+                    weights="5 schemes x 2-D/3-D x listed shapes, diagonal symbolic axes", from_molecule="<= 2 atoms, rotate=False, extent within one spacing (3 atoms exceed the path budget)",
                     closest_point="concrete non-cubic shapes, symbolic diagonal axes/origin, query inside the bounding box"),
         outside=["from_molecule(rotate=True) (LAPACK eigh)", "cube-file round trip (text formatting/parsing of floats)", "spline interpolation clauses (SciPy CubicSpline/RegularGridInterpolator on concrete meshes)",
                  "closest_point for query points outside the bounding box", "IEEE rounding"],
